@@ -28,7 +28,9 @@ PLATFORMS = [
     ('{ host = "cfg(unix)", target = "cfg(windows)" }', False), ('{ host = "cfg(unix)", target = "cfg(unix)" }', True),
     ('{ host = "cfg(windows)" }', False),
 ]
-KEYS = ["VT_SHARED", "VT_DUP", "VT_EQ", "VT_K_s1", "VT_K_s2", "VT_K_s3"]
+KEYS = ["VT_SHARED", "VT_DUP", "VT_EQ", "VT_K_s1", "VT_K_s2", "VT_K_s3", "NEXTEST_PROFILE", "NEXTEST_EXECUTION_MODE"]
+# what a test sees for a key no script provides
+BASELINE = {"NEXTEST_PROFILE": "default", "NEXTEST_EXECUTION_MODE": "process-per-test"}
 
 
 def gen_scenario(seed, k):
@@ -57,6 +59,8 @@ def gen_scenario(seed, k):
         lines = [f"VT_K_{s}={s}v", f"VT_SHARED=from-{s}"]
         if rng.random() < 0.4: lines += ["VT_DUP=first", "VT_DUP=second-" + s]
         if rng.random() < 0.4: lines += [f"VT_EQ=a=b={s}"]
+        # keys that only *look* reserved or shared once trimmed: accepted verbatim, so they must not touch the real names
+        if beh in ("ok", "slowok") and rng.random() < 0.35: lines.insert(rng.randrange(len(lines) + 1), rng.choice(["  NEXTEST_PROFILE=hijacked", "\tNEXTEST_EXECUTION_MODE=hijacked", " VT_SHARED=indented", "export NEXTEST_PROFILE=hijacked", "VT_SHARED =with-blank"]))
         acts = []
         if beh == "slowok": acts.append("sleep:250")
         if beh == "noeq": lines.insert(rng.randrange(len(lines) + 1), "this line has no equals sign")
@@ -166,6 +170,7 @@ def monitors(sc, r, model_out):
             if ps: V("test-procs", f"unselected test {t['name']!r} ran")
             continue
         got = [ps[0]["env"].get(k) for k in KEYS]
+        env[i] = [BASELINE.get(k) if w is None else w for k, w in zip(KEYS, env[i])]
         if got != env[i]:
             diff = {k: (g, w) for k, g, w in zip(KEYS, got, env[i]) if g != w}
             V("env-scope", f"test {t['bin']}/{t['name']!r}: variables (got, expected) differ: {diff}; rules {[(r_['filter'], r_['platform'], r_['setup'], r_['truth'][i]) for r_ in m['rules']]}")
